@@ -121,17 +121,15 @@ MUTANTS = [
     ("C08-no-notify-on-pid-release", "C08", [("                self.object_locked_pids_th.remove(pid)\n                self.object_pid_condition_th.notify()", "                self.object_locked_pids_th.remove(pid)")]),
     ("C09-object-copied-in-place", "C09", [("                shutil.move(tmp_file_name, abs_file_path)\n            except Exception as err:", "                shutil.copyfile(tmp_file_name, abs_file_path)\n                os.remove(tmp_file_name)\n            except Exception as err:")]),
     ("C09-metadata-written-in-place", "C09", [("                shutil.move(metadata_tmp, full_path)\n", "                shutil.copyfile(metadata_tmp, full_path)\n                os.remove(metadata_tmp)\n")]),
-    ("C10-refs-before-object", "C10", [("                    self.fhs_logger.debug(\"Attempting to store object for pid: %s\", pid)\n                    object_metadata = self._store_and_validate_data(",
-                                        "                    self.fhs_logger.debug(\"Attempting to store object for pid: %s\", pid)\n                    object_metadata = self._store_and_validate_data_late("),
-                                       ]),
+    ("C10-pid-ref-written-in-place", "C10", [("                pid_tmp_file_path = self._write_refs_file(tmp_root_path, cid, \"pid\")\n                cid_tmp_file_path = self._write_refs_file(tmp_root_path, pid, \"cid\")\n                shutil.move(pid_tmp_file_path, pid_refs_path)\n",
+                                              "                cid_tmp_file_path = self._write_refs_file(tmp_root_path, pid, \"cid\")\n                with open(pid_refs_path, \"w\", encoding=\"utf8\") as _pf:\n                    _pf.write(cid[:8])\n                    _pf.flush()\n                    _pf.write(cid[8:])\n")]),
     ("C10-no-orphan-cleanup", "C10", [("            except OrphanPidRefsFileFound:\n                warn_msg = (\n                    f\"Orphan pid reference file found for pid: {pid}. Skipping object deletion. \"",
                                        "            except IdentifierNotLocked:\n                warn_msg = (\n                    f\"Orphan pid reference file found for pid: {pid}. Skipping object deletion. \"")]),
     ("C11-doc-name-from-pid-only", "C11", [("        pid_doc = self._computehash(pid + checked_format_id)\n\n        sync_begin_debug_msg = (\n            f\" Adding pid: {pid} to locked list, with format_id: {checked_format_id} with doc \"",
                                             "        pid_doc = self._computehash(pid)\n\n        sync_begin_debug_msg = (\n            f\" Adding pid: {pid} to locked list, with format_id: {checked_format_id} with doc \"")]),
     ("C11-retrieve-ignores-default-ns", "C11", [("            metadata_document_name = self._computehash(pid + self.sysmeta_ns)\n        else:\n            metadata_document_name = self._computehash(pid + checked_format_id)",
                                                  "            metadata_document_name = self._computehash(pid)\n        else:\n            metadata_document_name = self._computehash(pid + checked_format_id)")]),
-    ("C12-no-doc-claim-in-store-metadata", "C12", [("            with self.metadata_condition_th:\n                while pid_doc in self.metadata_locked_docs_th:\n                    self.fhs_logger.debug(sync_wait_msg)\n                    self.metadata_condition_th.wait()\n                self.fhs_logger.debug(sync_begin_debug_msg)\n                self.metadata_locked_docs_th.append(pid_doc)\n\n        try:\n            metadata_cid",
-                                                    "            with self.metadata_condition_th:\n                self.fhs_logger.debug(sync_begin_debug_msg)\n                self.metadata_locked_docs_th.append(pid_doc)\n\n        try:\n            metadata_cid")]),
+    ("C12-metadata-written-in-place", "C12", [("                shutil.move(metadata_tmp, full_path)\n", "                shutil.copyfile(metadata_tmp, full_path)\n                os.remove(metadata_tmp)\n")]),
     ("C12-delete-waits-on-pid", "C12", [("                            while pid_doc in self.metadata_locked_docs_th:\n                                self.fhs_logger.debug(sync_wait_msg)", "                            while pid in self.metadata_locked_docs_th:\n                                self.fhs_logger.debug(sync_wait_msg)"),
                                         ("                    while pid_doc in self.metadata_locked_docs_th:\n                        self.fhs_logger.debug(sync_wait_msg)\n                        self.metadata_condition_th.wait()\n                    self.fhs_logger.debug(sync_begin_debug_msg)\n                    self.metadata_locked_docs_th.append(pid_doc)\n            try:\n                full_path_without_directory",
                                          "                    while pid in self.metadata_locked_docs_th:\n                        self.fhs_logger.debug(sync_wait_msg)\n                        self.metadata_condition_th.wait()\n                    self.fhs_logger.debug(sync_begin_debug_msg)\n                    self.metadata_locked_docs_th.append(pid_doc)\n            try:\n                full_path_without_directory")]),
@@ -151,27 +149,7 @@ MUTANTS = [
                                                    "            # If the data object already exists, do not move the file but attempt to verify it\n            try:\n                self._verify_object_information(\n                    pid,\n                    None,")]),
 ]
 
-EXTRA_CODE = {
-    # helper used by the C10-refs-before-object mutant: tag first, store afterwards
-    "C10-refs-before-object": ('''
-    def _store_and_validate_data_late(self, pid, data, **kw):
-        import hashlib as _h
-        stream = Stream(data)
-        h = _h.new(self.algorithm)
-        with closing(stream):
-            for chunk in stream:
-                h.update(self._cast_to_bytes(chunk))
-        self.tag_object(pid, h.hexdigest())
-        om = self._store_and_validate_data(pid, data, **kw)
-        self._skip_tag = True
-        return om
-
-    def tag_object(self, pid: str, cid: str) -> None:
-        if getattr(self, "_skip_tag", False):
-            self._skip_tag = False
-            return
-''', "    def tag_object(self, pid: str, cid: str) -> None:\n"),
-}
+EXTRA_CODE = {}
 
 
 def apply_mutant(repo, name):
